@@ -511,10 +511,16 @@ func dischargeAll(results []*FuncResult, timeout time.Duration, workdir string, 
 		retried++
 		sub := *l.src
 		sub.Goal = l.goal
-		r := solve(l.src.vc.query(&sub, true), 2*timeout, workdir, l.tag+".retry", true)
-		if r.Status == "unsat" || r.Status == "sat" {
-			r.Solver += " (retry)"
-			l.res = r
+		for _, mult := range []time.Duration{2, 6} {
+			r := solve(l.src.vc.query(&sub, true), mult*timeout, workdir, l.tag+".retry", true)
+			if r.Status == "unsat" || r.Status == "sat" {
+				r.Solver += " (retry)"
+				l.res = r
+				break
+			}
+			if r.Status != "timeout" {
+				break
+			}
 		}
 	}
 	for o, ls := range byObl {
